@@ -283,3 +283,9 @@ pub use crate::handler::{
     },
     ConnectionDirection, Handler, HandlerIn, HandlerOut, WhoAreYouRef,
 };
+
+// ---------------------------------------------------------------------------------------------
+// Scripted service
+// ---------------------------------------------------------------------------------------------
+
+pub use crate::service::verif::ScriptedHandler;
